@@ -146,12 +146,18 @@ func expandBytes(b []byte, e int) []byte {
 func hC10Req() {
 	produced := 0
 	cfg := &pipeCfg{maxMsg: c10L, clientCodec: CodecProto, svcCodecs: []string{CodecProto}, decompCount: &produced}
-	enveloped := verifChoose("client", 2) == 0
-	if enveloped {
+	clientForm := verifChoose("client", 3)
+	enveloped := clientForm == 0
+	isGet := clientForm == 2 // Connect GET: the message travels (optionally compressed) in the query string
+	switch clientForm {
+	case 0:
 		cfg.client = cfGRPC
 		cfg.kind = fkBidi
-	} else {
+	case 1:
 		cfg.client = cfConnectUnary
+	default:
+		cfg.client = cfConnectGet
+		cfg.idem, cfg.hasIdem = 1, true
 	}
 	switch verifChoose("target", 3) {
 	case 0:
@@ -178,11 +184,19 @@ func hC10Req() {
 		cfg.svcComp = verifChoose("svcComp", 2) == 1
 		cfg.expand = []int{1, 3}[verifChoose("expand", 2)]
 	}
+	if isGet && cfg.kind != fkUnary {
+		return
+	}
 	if pipeIsPassThrough(cfg) {
 		return
 	}
 	k := []int{c10L - 1, c10L, c10L + 1, 2*c10L + 1}[verifChoose("size", 4)]
 	raw := nondetBytes("payload", k) // bytes before toy compression
+	if isGet {
+		// the query-string form goes through base64: sizes are what matters here, contents are fixed
+		// (symbolic GET payloads are C19's subject)
+		raw = []byte("abcdefghi")[:k]
+	}
 	p := newPipe(cfg)
 	if !p.buildOK {
 		return
@@ -200,7 +214,13 @@ func hC10Req() {
 	if !compressed {
 		abstract = raw
 	}
-	if enveloped {
+	if isGet {
+		q := "connect=v1&encoding=" + cfg.clientCodec
+		if compressed {
+			q += "&compression=gzip"
+		}
+		p.req.URL.RawQuery = q + "&base64=1&message=" + refBase64URL(wire)
+	} else if enveloped {
 		fl := byte(0)
 		if compressed {
 			fl = 1
@@ -216,10 +236,13 @@ func hC10Req() {
 	p.tr.ServeHTTP(p.sink, p.req)
 
 	target, codec, comp := refNegotiate(cfg)
+	if p.backend.rec.method == "GET" {
+		verifOutside("Connect GET towards the backend is decided in C19")
+	}
 	// representations the transcoder itself materialises
 	reps := []int{len(wire)}
-	if !compressed || !comp || reencode {
-		reps = append(reps, len(abstract)) // it decompresses
+	if !compressed || !comp || reencode || isGet {
+		reps = append(reps, len(abstract)) // it decompresses (a GET's message parameter always)
 	}
 	if reencode {
 		reps = append(reps, jsonExtra(len(abstract)))
@@ -231,7 +254,7 @@ func hC10Req() {
 	// does the transcoder have to hold the whole message? (re-encoding, de/re-compression, or measuring an
 	// un-enveloped body of undeclared length for an enveloped target); otherwise it may stream it through
 	targetEnveloped := target == ProtocolGRPC || target == ProtocolGRPCWeb || (target == ProtocolConnect && cfg.kind != fkUnary)
-	mustBuffer := reencode || (compressed && !comp) || (!enveloped && targetEnveloped && p.req.ContentLength < 0)
+	mustBuffer := reencode || (compressed && !comp) || (!enveloped && targetEnveloped && p.req.ContentLength < 0) || isGet
 	out := refParseClientResponse(cfg, p.sink, p.backend.rec.calls > 0)
 	verifObsInt("client-code", int64(out.code))
 	verifObsInt("decompressed-bytes", int64(produced))
